@@ -8,7 +8,7 @@ fn opts() -> usvg::Options<'static> {
     crate::corpus::opts_for(None)
 }
 
-const HDR: &str = r#"<svg xmlns="http://www.w3.org/2000/svg" width="100" height="100">"#;
+const HDR: &str = r#"<svg xmlns="http://www.w3.org/2000/svg" xmlns:xlink="http://www.w3.org/1999/xlink" width="100" height="100">"#;
 
 /// decimal text that parses (as f64) to exactly this f32
 fn exact(x: f32) -> String {
@@ -126,7 +126,7 @@ fn targeted(seed: u64, tier: &str) -> Vec<Doc> {
     let n = (if tier == "thorough" { 4000 } else { 400 }) * budget_mult();
     let mag = ["0", "-0", "1e-40", "1e-7", "0.5", "1", "1e10", "3e38", "1e300", "-1", "50%", "1e3%", "2em", "1mm", "-5%"];
     for i in 0..n {
-        let doc = match i % 6 {
+        let doc = match i % 8 {
             0 => {
                 // stop lists: descending, equal, clustered within a few ulps, percentages
                 let k = 1 + rng.below(7) as usize;
@@ -173,6 +173,45 @@ fn targeted(seed: u64, tier: &str) -> Vec<Doc> {
                     r##"{HDR}<defs><linearGradient id="g" gradientTransform="{t}"><stop offset="0"/><stop offset="1" stop-color="red"/></linearGradient><pattern id="p" width="5" height="5" patternTransform="{t}"><rect width="3" height="3"/></pattern><clipPath id="c" transform="{t}"><rect width="30" height="30"/></clipPath></defs><g transform="{t}"><rect width="10" height="10" fill="url(#g)"/></g><rect width="10" height="10" fill="url(#p)" clip-path="url(#c)"/><g transform="scale(1e20)"><g transform="{t}"><rect width="1" height="1"/></g></g></svg>"##
                 )
             }
+            6 => {
+                // every combination of pattern units, content units and viewBox, used once, twice, or from text:
+                // whatever the route, the tree must hold user-space definitions only
+                let pu = *rng.pick(&["userSpaceOnUse", "objectBoundingBox"]);
+                let cu = *rng.pick(&["userSpaceOnUse", "objectBoundingBox"]);
+                let vb = if rng.chance(1, 2) { format!(r#" viewBox="0 0 {} {}" preserveAspectRatio="{}""#, rng.range(2, 20), rng.range(2, 20), rng.pick(&["none", "xMidYMid meet", "xMaxYMin slice"])) } else { String::new() };
+                let (pw, ph) = if pu == "objectBoundingBox" { ("0.25", "0.5") } else { ("8", "12") };
+                let child = if cu == "objectBoundingBox" && vb.is_empty() { r#"<rect width="0.1" height="0.2"/>"# } else { r#"<rect width="4" height="5"/>"# };
+                let mu = *rng.pick(&["userSpaceOnUse", "objectBoundingBox"]);
+                let mcu = *rng.pick(&["userSpaceOnUse", "objectBoundingBox"]);
+                let users = match rng.below(4) {
+                    0 => r##"<rect id="u1" x="5" y="5" width="40" height="30" fill="url(#p)" mask="url(#m)"/>"##.to_string(),
+                    1 => r##"<rect id="u1" x="5" y="5" width="40" height="30" fill="url(#p)" mask="url(#m)"/><circle id="u2" cx="70" cy="60" r="20" stroke="url(#p)" mask="url(#m)"/>"##.to_string(),
+                    2 => r##"<text id="u1" x="5" y="40" font-size="30" fill="url(#p)">ab</text>"##.to_string(),
+                    _ => r##"<g id="u0" fill="url(#p)"><rect id="u1" x="5" y="5" width="40" height="30"/><rect id="u2" x="50" y="50" width="10" height="30"/></g>"##.to_string(),
+                };
+                format!(
+                    r##"{HDR}<defs><pattern id="p" patternUnits="{pu}" patternContentUnits="{cu}" width="{pw}" height="{ph}"{vb}>{child}</pattern><mask id="m" maskUnits="{mu}" maskContentUnits="{mcu}" x="0" y="0" width="{}" height="{}"><rect width="{}" height="{}" fill="white"/></mask></defs>{users}</svg>"##,
+                    if mu == "objectBoundingBox" { "1" } else { "100" }, if mu == "objectBoundingBox" { "1" } else { "100" },
+                    if mcu == "objectBoundingBox" { "0.8" } else { "80" }, if mcu == "objectBoundingBox" { "0.8" } else { "80" }
+                )
+            }
+            7 => {
+                // transforms that overflow only in combination (element offset + own transform + ancestors), on
+                // every kind of instance; siblings before and after show whether anything leaks out of the reject
+                let big = *rng.pick(&["3e38", "2e38", "-3e38", "1e38"]);
+                let big2 = *rng.pick(&["3e38", "2.5e38", "-3e38"]);
+                let inst = match rng.below(5) {
+                    0 => format!(r##"<use id="i" xlink:href="#r" x="{big}" transform="translate({big2} 0)"/>"##),
+                    1 => format!(r##"<use id="i" xlink:href="#sy" y="{big}" transform="translate(0 {big2})" width="10" height="10"/>"##),
+                    2 => format!(r##"<use id="i" xlink:href="#nv" x="{big}" transform="translate({big2} 0)"/>"##),
+                    3 => format!(r##"<svg id="i" x="{big}" y="{big2}" width="10" height="10"><rect width="5" height="5"/></svg>"##),
+                    _ => format!(r##"<g id="i" transform="scale(1e20)"><use xlink:href="#r" transform="scale(1e20)"/></g>"##),
+                };
+                let outer = *rng.pick(&["", r#" transform="translate(1e38 0)""#, r#" transform="scale(2)""#]);
+                format!(
+                    r##"{HDR}<defs><rect id="r" width="10" height="10"/><symbol id="sy" viewBox="0 0 4 4"><rect width="4" height="4"/></symbol><svg id="nv" width="10" height="10"><rect width="5" height="5"/></svg></defs><g id="layer"{outer}><rect id="before" width="5" height="5"/>{inst}<rect id="after" x="20" width="5" height="5"/><g id="after-group"><rect id="last" y="20" width="5" height="5"/></g></g><rect id="outside" x="40" width="5" height="5"/></svg>"##
+                )
+            }
             _ => {
                 // text spans over multi-byte characters, bidi and combining marks
                 let s = *rng.pick(&["añb", "日本語テキスト", "e\u{301}e\u{301}", "abc אבג def", "🙂🙃", "a\u{200d}b", "ﬁ ligature", "\u{1F468}\u{200D}\u{1F469}\u{200D}\u{1F467}"]);
@@ -189,7 +228,7 @@ fn targeted(seed: u64, tier: &str) -> Vec<Doc> {
                 )
             }
         };
-        v.push(Doc { class: format!("targeted-{}", i % 6), path: None, data: doc.into_bytes(), dpi: *rng.pick(&[96.0, 96.0, 1.0, 4000.0]) });
+        v.push(Doc { class: format!("targeted-{}", i % 8), path: None, data: doc.into_bytes(), dpi: *rng.pick(&[96.0, 96.0, 1.0, 4000.0]) });
     }
     for f in std::fs::read_dir("/verif/findings/C04").into_iter().flatten().flatten() {
         if let Ok(data) = std::fs::read(f.path()) {
